@@ -554,6 +554,7 @@ static int c01_main(const Reg* regs, size_t nregs, void (*leaf)(const std::vecto
 	{
 		std::istringstream is(line);
 		std::string name; is >> name;
+
 		if (name == "cap" || name == "idx" || name == "sh" || name == "o8" || name == "kf" || name == "n1")
 		{
 			std::vector<std::string> w; std::string x; while (is >> x) w.push_back(x);
